@@ -92,22 +92,29 @@ Print Assumptions regex_matcher_meets_candidate_contract.
       Core::is_line_by_line_fast selects — equals the grep reference whose test "line matches" is
       "the final HIR has a match in the line's content (terminator removed)".  Props/C03.v reads
       that reference declaratively (results_delivered / nothing_else_delivered: a line is delivered
-      as a match iff its content matches xor invert).  Remaining hypotheses: span_ok (regex engine,
-      see 6) and "the fast-line literals contain no line feed" (true of the code because the
-      stripped HIR has no leaf that can produce "\n"; not proved here, checked by the C11 oracle). *)
+      as a match iff its content matches xor invert).  The only non-structural hypothesis left is
+      span_ok (the regex engine, see 6): that the fast-line literals are non-empty and contain no
+      line feed is proved (is_good; strip_ascii_leaf_free + fast_line_literals_free: a stripped HIR
+      has no leaf producing "\n" and the extractor only rearranges leaf bytes). *)
 Theorem c01_lines_reported_iff_content_matches :
   forall norm, norm_ok norm ->
-  forall rc tr final acc lits span fa cfg s,
+  forall rc tr final acc span fa cfg s,
     build norm rc tr = inl (final, Some (RTByte 10)) ->
     local_looks final = true ->
-    fast_line_literals (inner_literals rc acc final) = lits ->
-    (forall ls l, lits = Some ls -> In l ls -> nolf l) ->
     span_ok final span ->
     c_lt cfg = LTByte 10 -> c_binary cfg = BNone ->
-    slice_by_line_run cfg (regex_line_matcher final (Some (RTByte 10)) lits span fa) (fun _ => Continue) s
+    slice_by_line_run cfg (regex_line_matcher final (Some (RTByte 10))
+                             (fast_line_literals (inner_literals rc acc final)) span fa) (fun _ => Continue) s
     = RunOk (grep_ref cfg (is_match_sem final) s).
 Proof. exact c01_slice_run_eq_ref_proof. Qed.
 Print Assumptions c01_lines_reported_iff_content_matches.
+
+(* the fast-line literals of an accepted pattern never contain the advertised (byte) terminator *)
+Theorem literals_free_of_terminator : forall norm rc tr final b acc lits,
+  (b <= 127)%N -> build norm rc tr = inl (final, Some (RTByte b)) ->
+  fast_line_literals (inner_literals rc acc final) = Some lits -> forall l, In l lits -> ~ In b l.
+Proof. exact literals_free_of_terminator_proof. Qed.
+Print Assumptions literals_free_of_terminator.
 
 (* the "line matches" test of that reference is the declarative relation *)
 Theorem content_test_is_matches : forall h c, is_match_sem h c = true <-> exists i j, Matches h c i j.
